@@ -408,7 +408,13 @@ impl<S: futures::AsyncRead + futures::AsyncWrite + Unpin> ConnectionReader<S> {
 
         let mut info_hashes_by_worker: BTreeMap<usize, Vec<InfoHash>> = BTreeMap::new();
 
-        for info_hash in info_hashes.as_vec() {
+        // Apply the limit to the whole request: swarm workers only see (and
+        // limit) their own part of it
+        for info_hash in info_hashes
+            .as_vec()
+            .into_iter()
+            .take(self.config.protocol.max_scrape_torrents)
+        {
             let info_hashes = info_hashes_by_worker
                 .entry(calculate_in_message_consumer_index(&self.config, info_hash))
                 .or_default();
